@@ -848,7 +848,10 @@ pub fn run_check(ctx: &Ctx) -> i32 {
         }
     }
     let mut ev = Evidence::new("exploration");
-    ev.set("inputs_enumerated", json!(runs))
+    ev.set("evaluations", json!(runs))
+        .set("distinct_nontrivial", json!(reject_codes.len() as u64 + 1))
+        .set("rule", json!("accepted at an entry point <=> the chain was generated with no defect (a predicate on the generator parameters); entry points: bare verifier, AddTrustedRootCertificate+CSRRequest+AddNOC, CSRRequest+UpdateNOC, CASE with the chain presented by the initiator / by the responder"))
+        .set("inputs_enumerated", json!(runs))
         .set("bound", json!(format!("{} valid base chains x {} defects x 5 entry points ({} combinations do not exist)", all_bases.len(), all_defects.len(), na)))
         .set("exhaustive_within_bound", json!(true))
         .set("judged", json!(judged))
